@@ -1,7 +1,7 @@
 (* C07 -- deciding obligations. Statements only, closed by the lemmas proved in Xform/*Proofs.v. *)
 From Coq Require Import List Arith Bool.
 From VF Require Import Base.RingOps Base.Mat Base.Tensor Base.TensorProofs.
-From VF Require Import Xform.Routing Xform.RoutingProofs.
+From VF Require Import Xform.Routing Xform.RoutingProofs Xform.Gateset Xform.GatesetProofs.
 Import ListNotations.
 
 (* ---- MappingManager: for every swap sequence the two arrays stay inverse bijections ---- *)
@@ -63,6 +63,61 @@ Theorem C07_route_ok_sound_plain : forall n orig routed init final g d,
 Proof. exact route_ok_sound_plain. Qed.
 Print Assumptions C07_route_ok_sound_plain.
 
+(* ---- Gateset / GateFamily membership ---- *)
+(* type families follow isinstance (any position along the mro), instance families the phase class *)
+Theorem C07_type_family_spec : forall ty g tags,
+  family_contains (mkF (FBase (BType ty)) [] []) (IOp (Some g) tags) = true <-> In ty (g_mro g).
+Proof. exact type_family_spec. Qed.
+Print Assumptions C07_type_family_spec.
+
+Theorem C07_inst_family_spec : forall v p g tags,
+  family_contains (mkF (FBase (BInst v p true)) [] []) (IOp (Some g) tags) = true <-> In p (g_phase g).
+Proof. exact inst_family_spec. Qed.
+Print Assumptions C07_inst_family_spec.
+
+Theorem C07_family_contains_tags : forall f i, family_contains f i = true ->
+  (forall t, In t (f_ignore f) -> ~ In t (item_tags i)) /\
+  (f_accept f <> [] -> item_is_op i = true /\ exists t, In t (f_accept f) /\ In t (item_tags i)) /\
+  (forall tags, i <> IOp None tags).
+Proof. exact family_contains_tags. Qed.
+Print Assumptions C07_family_contains_tags.
+
+(* Gateset.__contains__ (dictionary look-ups, then linear scans) = "some family accepts the item" *)
+Theorem C07_gateset_membership_spec : forall gs g i, consistent (gs_families gs) g -> item_of g i ->
+  gateset_contains_gate gs g i = gateset_contains_spec gs i.
+Proof. exact gateset_membership_spec. Qed.
+Print Assumptions C07_gateset_membership_spec.
+
+Theorem C07_validate_spec : forall gs ops, validate gs ops = true <-> Forall (fun o => validate_op gs o = true) ops.
+Proof. exact validate_spec. Qed.
+Print Assumptions C07_validate_spec.
+
+Theorem C07_validate_circuit_op : forall gs tags inner,
+  validate_op gs (OCircuit tags inner) = true <->
+  gs_unroll gs = true /\ (forall t, In t (gs_banned gs) -> ~ In t tags) /\ Forall (fun o => validate_op gs o = true) inner.
+Proof. exact validate_circuit_op. Qed.
+Print Assumptions C07_validate_circuit_op.
+
+(* ---- devices ---- *)
+Theorem C07_device_accepts_iff : forall d o,
+  device_accepts d o = true <->
+  (d_gate_ops_only d = true -> dop_is_gate_op o = true) /\
+  op_in_gateset (d_gateset d) (dop_op o) = true /\
+  (forall q, In q (dop_qs o) -> In q (d_qubits d)) /\
+  (needs_pairs d o = true -> forall a b, In a (dop_qs o) -> In b (dop_qs o) -> a <> b -> pair_mem (d_pairs d) a b = true).
+Proof. exact device_accepts_iff. Qed.
+Print Assumptions C07_device_accepts_iff.
+
+Theorem C07_grid_device_pair_rule : forall d o a b, d_rule d = PairsTwoQubit -> dop_qs o = [a; b] -> a <> b ->
+  op_variadic (dop_op o) = false -> device_accepts d o = true -> pair_mem (d_pairs d) a b = true.
+Proof. exact grid_device_pair_rule. Qed.
+Print Assumptions C07_grid_device_pair_rule.
+
+Theorem C07_device_accepts_circuit_spec : forall d ops,
+  device_accepts_circuit d ops = true <-> Forall (fun o => device_accepts d o = true) ops.
+Proof. exact device_accepts_circuit_spec. Qed.
+Print Assumptions C07_device_accepts_circuit_spec.
+
 (* ---- non-vacuity ---- *)
 (* a mapping satisfying the invariant, and a swap sequence within range *)
 Example C07_mm_example : mm_ok 3 (mm_init [2; 0; 1]) /\ Forall (fun s => fst s < 3 /\ snd s < 3) [(0, 1); (1, 2)].
@@ -85,3 +140,28 @@ Example C07_route_ok_directed :
            [RCx 0 1; RHd 0; ROp (mkO 5 [2] []); RHd 1; RCx 0 1; RHd 1; RHd 0; RCx 0 1; ROp (mkO 7 [0; 1] [])]
            [0; 1; 2] [1; 0; 2] [(0, 1); (1, 2)] true = true.
 Proof. reflexivity. Qed.
+(* a gateset with a type family (type 1), an instance family (class 7) and a tagged family; a gate whose most derived
+   type is 3 with base type 1 is accepted through the mro; consistency holds for it *)
+Example C07_gateset_example :
+  let gs := mkGS [mkF (FBase (BType 1)) [] []; mkF (FBase (BInst 7 7 true)) [] []; mkF (FBase (BType 2)) [9] []] true [5] in
+  let g := GD [3; 1; 0] 4 [] false false 1 true false None in
+  consistent (gs_families gs) g /\ item_of g (IOp (Some g) []) /\
+  gateset_contains_gate gs g (IOp (Some g) []) = true /\
+  validate_op gs (OGate g [5]) = false /\
+  validate_op gs (OCircuit [] [OGate g []; OGate (GD [2; 0] 6 [] false false 1 true false None) [9]]) = true /\
+  validate_op gs (OCircuit [] [OGate (GD [2; 0] 6 [] false false 1 true false None) []]) = false.
+Proof.
+  simpl. repeat split; try reflexivity.
+  - intros f v p ign Hf Hk Hv. destruct Hf as [<-|[<-|[<-|[]]]]; simpl in Hk; try discriminate.
+    injection Hk as <- <- _. simpl in Hv. discriminate.
+  - right. exists []. reflexivity.
+Qed.
+(* a grid-like device: qubits 0..2, pairs (0,1) (1,2); a two-qubit operation on the pair (0,2) is rejected, on (1,0) accepted *)
+Example C07_device_example :
+  let gs := mkGS [mkF (FBase (BType 1)) [] []] true [] in
+  let d := mkDev gs [0; 1; 2] [(0, 1); (1, 2)] PairsTwoQubit false in
+  let g := GD [1; 0] 4 [] false false 2 true false None in
+  device_accepts d (mkDop (OGate g []) [1; 0] true) = true /\
+  device_accepts d (mkDop (OGate g []) [0; 2] true) = false /\
+  device_accepts d (mkDop (OGate g []) [0; 3] true) = false.
+Proof. repeat split. Qed.
